@@ -1,9 +1,219 @@
-(* C09 — Locking is a fixpoint of resolution. Property theorems only. *)
+(* C09 — Locking is a fixpoint of resolution. Property theorems only; each is
+   closed by [exact] of a lemma of Proofs/LockProofs.v and followed by Print
+   Assumptions. The regular expression, the delimiter sets, the entry / pin /
+   range formats, the range arithmetic of LockCmd and the field copies of
+   NewAPKResolved are the ones goextract read from /repo on this run
+   (Generated/C09Lock.v). *)
 From Apko Require Import Base.Prelude Base.Regex Base.C12Lib Model.Version Model.Lock Spec.LockSpec
-  Proofs.LockProofs Generated.Regexes Generated.C09Lock.
+  Proofs.LockProofs Generated.Regexes Generated.VersionConsts Generated.C09Lock.
+From Coq Require Import Permutation Sorted.
+Open Scope string_scope. Open Scope list_scope.
 
 (* pkg/build/lock.go carries a private copy of the resolver's constraint
    grammar: the two regular expressions are the same *)
 Theorem c09_regex_copy : lock_package_name_regex = package_name_regex.
 Proof. exact lock_regex_is_resolver_regex. Qed.
 Print Assumptions c09_regex_copy.
+
+(* unify does not depend on the order in which Go hands out the elements of
+   acc.packages (UnsortedList, once per architecture) nor on the order of the
+   range over acc.provided: for ALL such orders the result is the same *)
+Theorem c09_unify_order_independent : forall ord ord' ordp ordp' originals inputs,
+  (forall i l, Permutation (ord i l) l) -> (forall i l, Permutation (ord' i l) l) ->
+  (forall l, Permutation (ordp l) l) -> (forall l, Permutation (ordp' l) l) ->
+  unify ord ordp originals inputs = unify ord' ordp' originals inputs.
+Proof. exact unify_order_independent. Qed.
+Print Assumptions c09_unify_order_independent.
+
+(* the shared ("index") lock: sorted, and its entries are EXACTLY name=version[@pin]
+   for the names resolved on every architecture to one and the same version
+   (inputs as LockImageConfiguration builds them: packages = keys(versions)) *)
+Theorem c09_unify_index : forall ord ordp originals r0 rest bya mba,
+  (forall i l, Permutation (ord i l) l) -> originals <> [] ->
+  Forall wf_resolved (r0 :: rest) ->
+  ~ In unify_index_key (List.map r_arch (r0 :: rest)) ->
+  unify ord ordp originals (r0 :: rest) = Ok (bya, mba) ->
+  exists idx, alookup unify_index_key bya = Some idx /\ StronglySorted sle idx /\
+    IndexSound (unify_pin originals) r0 rest idx /\
+    forall e, In e idx <->
+      exists n, In n (r_packages r0) /\ e = lock_entry (unify_pin originals) (r_versions r0) n /\
+                forall r, In r rest -> In n (r_packages r) /\ vget n (r_versions r) = vget n (r_versions r0).
+Proof.
+  intros ord ordp originals r0 rest bya mba Ho Hne W Nidx H.
+  destruct (unify_index_exact ord ordp originals r0 rest bya mba Ho Hne W Nidx H) as (idx & E & S & X).
+  exists idx. split; [exact E | split; [exact S | split; [|exact X]]].
+  intros e He. apply X in He. exact He.
+Qed.
+Print Assumptions c09_unify_index.
+
+(* each per-architecture lock is exactly the sorted list of name=version[@pin]
+   of that architecture's resolution *)
+Theorem c09_unify_per_arch : forall ord ordp originals inputs bya mba,
+  originals <> [] -> NoDup (List.map r_arch inputs) -> ~ In unify_index_key (List.map r_arch inputs) ->
+  unify ord ordp originals inputs = Ok (bya, mba) ->
+  forall r, In r inputs ->
+    exists l, alookup (r_arch r) bya = Some l /\ ArchLockExact (unify_pin originals) r l.
+Proof.
+  intros ord ordp originals inputs bya mba Hne ND Nidx H r Hr.
+  eexists. split; [exact (unify_per_arch_exact ord ordp originals inputs bya mba Hne ND Nidx H r Hr)|].
+  apply arch_lock_exact_b_iff. unfold arch_lock_exact_b. apply (list_eqb_spec String.eqb String.eqb_eq). reflexivity.
+Qed.
+Print Assumptions c09_unify_per_arch.
+
+(* the order of the ARCHITECTURES (a Go map range in LockImageConfiguration)
+   does matter: same request, same resolutions, success one way and an error
+   the other (finding C09-F3; replayed on the real unify by the harness) *)
+Theorem c09_unify_arch_order_refuted :
+  exists originals r1 r2 ok,
+    wf_resolved r1 /\ wf_resolved r2 /\
+    unify id_ord id_ordp originals [r1; r2] = Ok ok /\ unify id_ord id_ordp originals [r2; r1] = Err.
+Proof.
+  destruct unify_arch_order_refuted as [H1 H2].
+  eexists _, _, _, _. split; [|split; [|split; [exact H1 | exact H2]]];
+    intro n; vm_compute; tauto.
+Qed.
+Print Assumptions c09_unify_arch_order_refuted.
+
+(* ... but only in whether there is a result: per-architecture lists never
+   depend on it (missing part: the shared list, see notes) *)
+Theorem c09_unify_arch_order_partial : forall ord ordp originals inputs inputs' bya mba bya' mba',
+  originals <> [] -> Permutation inputs inputs' ->
+  NoDup (List.map r_arch inputs) -> ~ In unify_index_key (List.map r_arch inputs) ->
+  unify ord ordp originals inputs = Ok (bya, mba) ->
+  unify ord ordp originals inputs' = Ok (bya', mba') ->
+  forall r, In r inputs -> alookup (r_arch r) bya = alookup (r_arch r) bya'.
+Proof. exact unify_arch_order_partial. Qed.
+Print Assumptions c09_unify_arch_order_partial.
+
+(* lock.json: for every package file made of the three members sig ++ ctl ++ dat
+   (sizes and hashes as expandapk reports them, copied by NewAPKResolved as
+   translated, ranges computed by LockCmd's translated arithmetic): the recorded
+   byte ranges cut the file exactly into its members — contiguous, disjoint,
+   covering [0, total) — the signature section is emitted iff there is one, and
+   the recorded checksums are those of the three members (hash functions and
+   base64 are parameters) *)
+Theorem c09_ranges : forall (sha1 sha256 : list N -> list N) (b64 : list N -> string) (sig ctl dat : list N),
+  let e := expand sha1 sha256 sig ctl dat in
+  let file := sig ++ ctl ++ dat in
+  ((signature_emitted e = false <-> sig = []) /\
+   (signature_emitted e = true -> slice (n_lo (signature_nums e)) (n_hi (signature_nums e)) file = sig) /\
+   slice (n_lo (control_nums e)) (n_hi (control_nums e)) file = ctl /\
+   slice (n_lo (data_nums e)) (n_hi (data_nums e)) file = dat /\
+   (ctl <> [] -> dat <> [] ->
+    RangesTile (signature_emitted e) (signature_nums e) (control_nums e) (data_nums e) (Z.of_nat (List.length file)))) /\
+  (s_checksum (control_section b64 e) = (lock_control_checksum_prefix ++ b64 (sha1 ctl))%string /\
+   s_checksum (data_section b64 e) = (lock_data_checksum_prefix ++ b64 (sha256 dat))%string /\
+   (sig <> [] -> s_checksum (signature_section b64 e) = (lock_signature_checksum_prefix ++ b64 (sha1 sig))%string) /\
+   (sig = [] -> signature_section b64 e = {| s_range := ""; s_checksum := "" |}) /\
+   s_range (control_section b64 e) =
+     fmt_s lock_control_range_format [dec (n_lo (control_nums e)); dec (n_hi (control_nums e))] /\
+   s_range (data_section b64 e) =
+     fmt_s lock_data_range_format [dec (n_lo (data_nums e)); dec (n_hi (data_nums e))] /\
+   (sig <> [] -> s_range (signature_section b64 e) =
+     fmt_s lock_signature_range_format [dec (n_hi (signature_nums e))])).
+Proof. intros. split; [exact (ranges_exact sha1 sha256 sig ctl dat) | exact (checksums_exact sha1 sha256 b64 sig ctl dat)]. Qed.
+Print Assumptions c09_ranges.
+
+(* a lock entry name=version is read back by the resolver as the constraint
+   (name, "=", version, no pin), and filterPackages admits through it exactly:
+   the candidates (= packages called [name] or providing it) that are not
+   disqualified, come from an untagged repository, have a parsable version and
+   either compare equal to [version] or carry ANY provides entry — of whatever
+   name — whose version compares equal. The last clause and "providing it" are
+   where the round trip can leave the locked set. *)
+Theorem c09_lock_entries_exact : forall name v (cands : list cand) (k : cand),
+  clean_name name -> clean_version v ->
+  resolve_constraint (name ++ "=" ++ v) =
+    {| c_name := name; c_version := v; c_dep := dep_versionEqual; c_pin := "" |} /\
+  (In k (filter_for (resolve_constraint (name ++ "=" ++ v)) cands) <->
+   In k cands /\ k_dq k = false /\ k_pinned k = "" /\
+   exists req, parse_version v = Some req /\ Admits req k).
+Proof.
+  intros name v cands k Hn Hv. split; [exact (lock_entry_parses name v Hn Hv) | exact (lock_entry_admits_exactly name v cands k Hn Hv)].
+Qed.
+Print Assumptions c09_lock_entries_exact.
+
+Theorem c09_lock_entry_admits_foreign :
+  exists q, k_name q <> "b" /\ In q (filter_for (resolve_constraint "b=1.0-r0") [q]).
+Proof. eexists. split; [|exact lock_entry_admits_foreign]. discriminate. Qed.
+Print Assumptions c09_lock_entry_admits_foreign.
+
+(* installing from a lock: the packages handed to the installer are exactly the
+   entries of the requested architecture, in file order, each with its url and
+   checksum; an entry without checksum is an error; and what gets installed is
+   that list, element by element: no resolution takes place *)
+Theorem c09_lock_install : forall (P : Type) (fetch : installable -> option P) pkgs arch,
+  (forall ps, build_from_lock fetch pkgs arch = Ok ps ->
+     List.map Some ps = List.map fetch (List.map to_installable (for_arch arch pkgs))) /\
+  (forall l, installable_for_arch pkgs arch = Ok l ->
+     l = List.map to_installable (for_arch arch pkgs) /\ Forall (fun p => lp_checksum p <> "") (for_arch arch pkgs)) /\
+  (Forall (fun p => lp_checksum p <> "") (for_arch arch pkgs) ->
+     installable_for_arch pkgs arch = Ok (List.map to_installable (for_arch arch pkgs))) /\
+  installable_for_arch pkgs arch <> Panic /\ installable_for_arch pkgs arch <> OutOfFuel.
+Proof.
+  intros P fetch pkgs arch. split; [intros ps H; exact (build_from_lock_exact fetch pkgs arch ps H) | exact (installable_exact pkgs arch)].
+Qed.
+Print Assumptions c09_lock_install.
+
+(* the fixpoint, against an abstract resolver over a universe U.
+   Full statement: [Fixpoint_statement U resolve]. It is NOT a theorem of the
+   real resolver (findings C09-F1, C09-F2, replayed by the harness). Proved: for
+   every resolver that is sound (its result is inside U, answers every world
+   entry and is closed under positive dependencies), minimal (no proper subset
+   of its result is such a solution) and finds a solution of an exact lock that
+   has one — whenever every member answers its own entry and nothing else in U
+   is admitted by a member's entry, re-resolving the lock returns exactly the
+   members. Missing for the real code: the three hypotheses are not proved of
+   Model/Resolver.v (not committed at the time of writing). *)
+Theorem c09_fixpoint_partial : forall (U : list cand) (resolve : list string -> option (list cand)),
+  (forall W S, resolve W = Some S -> solution U W S) ->
+  (forall W S S', resolve W = Some S -> solution U W S' -> incl S' S -> incl S S') ->
+  (forall S, solution U (lock_of S) S -> exists R, resolve (lock_of S) = Some R) ->
+  forall W S, resolve W = Some S ->
+    (forall k, In k S -> admitted U (lock_entry_of k) k) ->
+    (forall k k', In k S -> In k' U -> admitted U (lock_entry_of k) k' -> k' = k) ->
+    exists R, resolve (lock_of S) = Some R /\ forall k, In k R <-> In k S.
+Proof. exact fixpoint_partial. Qed.
+Print Assumptions c09_fixpoint_partial.
+
+(* the validators run on the implementation's observed outputs decide the
+   readable statements *)
+Theorem c09_validators_decide :
+  (forall pin r0 rest idx, index_sound_b pin r0 rest idx = true <-> IndexSound pin r0 rest idx) /\
+  (forall pin r l, arch_lock_exact_b pin r l = true <-> ArchLockExact pin r l) /\
+  (forall a b, same_members_b a b = true <-> SameMembers a b) /\
+  (forall sp sg ct dt total, ranges_tile_b sp sg ct dt total = true <-> RangesTile sp sg ct dt total).
+Proof.
+  split; [exact index_sound_b_iff | split; [exact arch_lock_exact_b_iff | split; [exact same_members_b_iff | exact ranges_tile_b_iff]]].
+Qed.
+Print Assumptions c09_validators_decide.
+
+(* ---- non-vacuity ------------------------------------------------------------------ *)
+Example c09_unify_example :
+  let r1 := resolved_of "amd64" [{| p_name := "a"; p_version := "1.0-r0"; p_provides := [] |};
+                                 {| p_name := "b"; p_version := "2.0-r0"; p_provides := ["v=1"] |}] in
+  let r2 := resolved_of "arm64" [{| p_name := "b"; p_version := "2.1-r0"; p_provides := ["v=1"] |};
+                                 {| p_name := "a"; p_version := "1.0-r0"; p_provides := [] |}] in
+  wf_resolved r1 /\ wf_resolved r2 /\
+  unify id_ord id_ordp ["a@edge"] [r1; r2] =
+    Ok ([("index", ["a=1.0-r0@edge"]); ("amd64", ["a=1.0-r0@edge"; "b=2.0-r0"]); ("arm64", ["a=1.0-r0@edge"; "b=2.1-r0"])],
+        [("amd64", ["b"]); ("arm64", ["b"])]).
+Proof. split; [|split]; try (intro n; vm_compute; tauto). vm_compute. reflexivity. Qed.
+
+Example c09_ranges_example :
+  let e := expand (fun _ => [1%N]) (fun _ => [2%N]) [10; 11; 12]%N [20; 21]%N [30; 31; 32; 33]%N in
+  s_range (control_section (fun _ => "h") e) = "bytes=3-4" /\
+  s_range (data_section (fun _ => "h") e) = "bytes=5-8" /\
+  s_range (signature_section (fun _ => "h") e) = "bytes=0-2" /\
+  s_checksum (data_section (fun _ => "h") e) = "sha256-h".
+Proof. vm_compute. repeat split. Qed.
+
+Example c09_clean_example : clean_name "lib-x" /\ clean_version "1.2.3_rc1-r4".
+Proof. split; vm_compute; repeat split; discriminate. Qed.
+
+(* the hypotheses of c09_fixpoint_partial are consistent, on a one-package universe *)
+Example c09_fixpoint_hypotheses_consistent :
+  let ka := {| k_name := "a"; k_version := "1.0-r0"; k_provides := []; k_deps := []; k_pinned := ""; k_dq := false |} in
+  admitted [ka] (lock_entry_of ka) ka /\
+  (forall k', In k' [ka] -> admitted [ka] (lock_entry_of ka) k' -> k' = ka).
+Proof. split; [vm_compute; left; reflexivity | intros k' [<-|[]] _; reflexivity]. Qed.
